@@ -848,7 +848,10 @@ pub fn generate(seed: u64, knobs: &Knobs) -> C10Scenario {
                     }
                     8 => {
                         // only a property of convert_require changes
-                        if parts.convert_sourcemap.is_some() {
+                        if parts.convert_sourcemap.is_some() && !world.aliases.is_empty() && rh.chance(1, 2) {
+                            // whether `.luaurc` files are consulted by the current mode
+                            parts.convert_no_luaurc = !parts.convert_no_luaurc;
+                        } else if parts.convert_sourcemap.is_some() {
                             parts.convert_indexing = match parts.convert_indexing.as_deref() {
                                 None => Some("wait_for_child".to_owned()),
                                 Some("wait_for_child") => Some("property".to_owned()),
